@@ -119,7 +119,7 @@ func VerifC07OverlappingFailures() {
 	}
 	var release int32
 	verifrt.Go(func() { verifExec(cb, func() error { verifrt.WaitFor(&release); return verifErrBoom }) })
-	verifrt.Settle() // A is admitted and in flight
+	verifrt.Settle()             // A is admitted and in flight
 	verifExec(cb, func() error { // B is admitted while A is in flight; A fails first, then B
 		atomic.StoreInt32(&release, 1)
 		verifrt.Settle()
